@@ -16,18 +16,17 @@
 (***************************************************************************)
 EXTENDS Names, Json, IOUtils
 
-\* An operator WITH a parameter: TLC evaluates zero-arity constant definitions once per worker at start-up
-\* (measured: the file was opened once per worker), which multiplies parse time and memory.  Load is only
-\* called from Init (LET-bound, one evaluation, main thread).
-Load(f) == JsonDeserialize(f)
+\* Measured: TLC evaluates this file-backed constant once per worker (the file is opened #workers times),
+\* and a LET-bound or parameterised variant is re-evaluated on every use.  The harness therefore keeps
+\* judge files small (batches) instead.
+Data == JsonDeserialize(IOEnv.JUDGE_FILE)
 
-\* The input record travels in the state (inp), so that only the initial-state computation touches the file.
+\* The input record travels in the state (inp).
 VARIABLES part, idx, inp, done, rep
 vars == <<part, idx, inp, done, rep>>
 
-Init == LET D == Load(IOEnv.JUDGE_FILE) IN
-        /\ \/ \E i \in 1..Len(D.fix) : part = "fix" /\ idx = i /\ inp = <<D.structs[D.fix[i][1]], D.fix[i]>>
-           \/ \E i \in 1..Len(D.ren) : part = "ren" /\ idx = i /\ inp = <<0, D.ren[i]>>
+Init == /\ \/ \E i \in 1..Len(Data.fix) : part = "fix" /\ idx = i /\ inp = <<Data.structs[Data.fix[i][1]], Data.fix[i]>>
+           \/ \E i \in 1..Len(Data.ren) : part = "ren" /\ idx = i /\ inp = <<0, Data.ren[i]>>
         /\ done = FALSE
         /\ rep = <<>>
 
